@@ -1550,7 +1550,12 @@ impl HasChildren for XmlDocument {
                 }
             }
             XmlItem::Element(_) => {
-                if self.document_element().is_ok() {
+                // A second element is refused; moving the document element itself is fine.
+                let other = self
+                    .document_element()
+                    .map(|v| v.borrow().id() != value.id())
+                    .unwrap_or(false);
+                if other {
                     Err(error::Error::InvalidType)
                 } else {
                     add_or_insert(self, value.clone(), id);
